@@ -121,18 +121,18 @@ class ParallelArchipelago(Archipelago):
             self._non_blocking_execution_helper()
 
     def _non_blocking_execution_main(self, num_steps):
-        total_age = {}
-        average_age = self.generational_age
-        target_age = average_age + num_steps
+        total_age = {0: self.island.generational_age}
+        for source in range(1, self.comm_size):
+            total_age.update(self.comm.recv(source=source, tag=AGE_UPDATE))
+        target_total_age = sum(total_age.values()) + num_steps * self.comm_size
 
-        while average_age < target_age:
+        while sum(total_age.values()) < target_total_age:
             self.island.evolve(
                 self._sync_frequency,
                 hall_of_fame_update=False,
                 suppress_logging=True,
             )
             self._gather_updated_ages(total_age)
-            average_age = (sum(total_age.values())) / self.comm.size
 
         self._send_exit_notifications()
         self.comm.Barrier()
